@@ -1,3 +1,4 @@
+mod byron;
 mod c33;
 mod c34;
 mod c35;
